@@ -199,7 +199,6 @@ package storage
 //@   ensures [outputs] let h == ver.hash in !old(Finalized(*txn, h)) && err == nil ==> forall i int :: 0 <= i && i < len(ver.Outputs) && common.Materialised(ver.Outputs[i].Type) ==> HasUtxo(*txn, h, i)
 //@   loop 0 invariant [hash] ver.hash.HasValue() && (old(ver.hash.HasValue()) ==> ver.hash == old(ver.hash))
 //@   loop 0 invariant [written] forall j int :: {rangeexpr[j]} 0 <= j && j <= rangeindex ==> HasUtxo(*txn, ver.hash, rangeexpr[j].Index)
-//@   loop 0 invariant [ordered] forall a, b int :: 0 <= a && a < b && b < len(rangeexpr) ==> rangeexpr[a].Index < rangeexpr[b].Index
 //@   loop 0 invariant [by-output] forall i int :: 0 <= i && i < len(ver.Outputs) && common.Materialised(ver.Outputs[i].Type) ==> exists j int :: 0 <= j && j < len(rangeexpr) && rangeexpr[j].Index == i
 //@   loop 0 invariant [shape] TxShapeOK(ver)
 //@   loop 0 invariant [utxos] forall j int :: {rangeexpr[j]} 0 <= j && j < len(rangeexpr) ==> fresh(rangeexpr[j]) && allocated(rangeexpr[j]) && common.UtxoOf(rangeexpr[j], ver)
